@@ -8,6 +8,7 @@ import typing as T
 from ..core import AnalysisError, Module, Repo, Undecided, attr_chain, norm, short, walk_no_nested
 from ..report import Rule, RuleCtx
 from ..paths import enumerate_paths
+from ..tables import canon as tables_canon
 from . import c13_lazy as lazy
 from . import c13_tables as tabs
 from . import c13_state as state
@@ -559,15 +560,40 @@ def r6(ctx: RuleCtx) -> None:
             raise Undecided(f'{qn}: no returning path')
         n_ok = 0
         for p in paths:
-            if p.value is None or not isinstance(p.value, ast.Name):
-                raise Undecided(f'{qn}: returns `{short(p.value)}`, not a local holding the new object')
-            r = p.value.id
+            def fresh_from_operand(v: ast.AST) -> T.Optional[str]:
+                if isinstance(v, ast.Call) and attr_chain(v.func) == 'self.copy' and not v.args:
+                    return 'self'
+                if isinstance(v, ast.Call) and (norm(v.func) == 'type(self)' or fam.resolve_member(fm, attr_chain(v.func) or '?')) and len(v.args) == 2 \
+                        and attr_chain(v.args[1]) in ('self', other):
+                    return 'self' if attr_chain(v.args[1]) == 'self' else 'ARG'
+                return None
+            rebound = {t.id for ev in p.events if ev.kind == 'stmt' and ev.node is not None for t in ast.walk(ev.node)
+                       if isinstance(t, ast.Name) and isinstance(t.ctx, ast.Store)}
+            if isinstance(p.value, ast.Name) and p.value.id in ('self', other) and p.value.id not in rebound:
+                # the sum IS one of its operands: `x = a + b; x += c` also changes a (or b) - and the other way round
+                ctx.violation(fm, qn, p.value, f'{qn} returns the {"left" if (p.value.id == "self") == (name == "__add__") else "right"} operand itself (`return {p.value.id}`) on the path '
+                              f'[{p.describe()[:120]}]: the result of `+` must be a new object; a later += / append / insert on the sum would also change the operand '
+                              '(and additions to the operand would show up in a sum taken earlier)', p.value)
+                continue
             origin: T.Optional[str] = None
+            if isinstance(p.value, ast.Name):
+                r = p.value.id
+            elif p.value is not None and fresh_from_operand(p.value) is not None:
+                r = '<returned>'        # `return self.copy()` is read as `_r = self.copy(); return _r`
+                origin = fresh_from_operand(p.value)
+            else:
+                raise Undecided(f'{qn}: returns `{short(p.value)}`, not a local holding the new object')
             added_ok = False
+            # on a path that has established that the other operand is empty, adding it is the identity and may be left out
+            empty_other = False
             raw: T.Optional[ast.AST] = None
             for ev in p.events:
                 e = ev.node
                 if ev.kind == 'cond':
+                    if e is not None:
+                        at, pol = tables_canon(e, bool(ev.val))
+                        if at.kind == 'truth' and not pol and at.args[0] in ('self', other) and at.args[0] not in rebound:
+                            empty_other = empty_other or at.args[0]
                     continue
                 if ev.kind != 'stmt' or e is None:
                     raise Undecided(f'{qn}: `{short(e, 50)}` on the path is outside the reference vocabulary')
@@ -577,12 +603,8 @@ def r6(ctx: RuleCtx) -> None:
                     continue
                 if isinstance(e, (ast.Assign, ast.AnnAssign)) and attr_chain(e.targets[0] if isinstance(e, ast.Assign) else e.target) == r and e.value is not None:
                     v = e.value
-                    if isinstance(v, ast.Call) and attr_chain(v.func) == 'self.copy' and not v.args:
-                        origin = 'self'
-                    elif isinstance(v, ast.Call) and (norm(v.func) == 'type(self)' or fam.resolve_member(fm, attr_chain(v.func) or '?')) and len(v.args) == 2 \
-                            and attr_chain(v.args[1]) in ('self', other):
-                        origin = 'self' if attr_chain(v.args[1]) == 'self' else 'ARG'
-                    else:
+                    origin = fresh_from_operand(v)
+                    if origin is None:
                         raise Undecided(f'{qn}: `{short(e, 60)}` is not a copy()/constructor of one operand')
                     added_ok = False
                     continue
@@ -614,7 +636,7 @@ def r6(ctx: RuleCtx) -> None:
                 ctx.violation(fm, qn, p.value, f'{qn} starts from a copy of the {"right" if origin == "ARG" else "left"} operand and adds the other one: the operand order of '
                               f'`{"list + args" if name == "__radd__" else "args + list"}` is reversed', fn0)
                 continue
-            if not added_ok:
+            if not added_ok and not (empty_other and empty_other != role[origin]):
                 raise Undecided(f'{qn}: the other operand is never added on a returning path')
             n_ok += 1
         if n_ok == len(paths):
